@@ -7,6 +7,7 @@ import PyctrModel.Fmt.Cci
 import Proofs.SubRefines
 import Proofs.PyFileRefines
 import Proofs.CbcRefines
+import Proofs.CdnProofs
 namespace Pyctr.C10
 open Pyctr
 
@@ -95,5 +96,19 @@ theorem C10_sdtitle_selection (isfile : Bytes → Bool) (name : Tmd.ChunkRecord 
         simp only [Bool.not_false, if_true, Bool.false_eq_true, if_false]
         rw [ih]
   simpa using key []
+
+/-- **CDN title key, every source**: a supplied decrypted title key is used as it is (whatever else is supplied); the
+    encrypted title key with its common-key index, and the ticket file `cetk` (of which only the first 0x2AC bytes are
+    read), both yield the packed title key — for every engine that has the common-key KeyX (retail, and dev for an index
+    other than 0), given that AES decryption inverts encryption -/
+theorem C10_cdn_key_sources (E D : Bytes → Bytes → Bytes) (hED : ∀ k b, D k (E k b) = b) (hE : ∀ k b, (E k b).length = 16)
+    (e : Engine) (x ky idx : Nat) (k tid : Bytes) (hx : e.keyX 0x3D = some x) (hk : k.length = 16) (htid : tid.length = 8)
+    (hidx : Engine.commonKeyY[idx]? = some ky) (hnd : ¬ (e.dev = true ∧ idx = 0)) :
+    let encTk := E (keygenSlot 0x3D x ky) (xorBytes k (tid ++ zeros 8))
+    (∀ enc i c, (Cdn.setupKey D e tid k enc i c).1.normal 0x40 = some k) ∧
+    (∀ c, (Cdn.setupKey D e tid [] encTk idx c).1.normal 0x40 = some k) ∧
+    (∀ ticket : Bytes, 0x2AC ≤ ticket.length → slice ticket 0x1BF 16 = encTk → (ticket.getD 0x1F1 0).toNat = idx →
+      slice ticket 0x1DC 8 = tid → ∀ i, (Cdn.setupKey D e tid [] [] i (some ticket)).1.normal 0x40 = some k) :=
+  cdn_key_sources E D hED hE e x ky idx k tid hx hk htid hidx hnd
 
 end Pyctr.C10
